@@ -519,13 +519,31 @@ func c11Cursor(c *Ctx) {
 		return
 	}
 	key := u.Name + " › cursor"
-	reads := c.Calls(u.SSA, Invoke("metadata.Protocol.ReadFrom"))
-	if len(reads) != 1 {
+	// (the per-protocol step may be an unexported helper of the decoder: the read is looked up through it and
+	// expressed in the decoder's terms; what the helper returns as "consumed" is followed back to the read's count)
+	readsI := c.CallsInl(u.SSA, Invoke("metadata.Protocol.ReadFrom"), 2)
+	if len(readsI) != 1 {
 		c.Bad("C11.M6-cursor-discipline", key, u.SSA.Pos(), "expected exactly one ReadFrom call in the decode loop")
 		return
 	}
-	rd := reads[0]
+	rd := readsI[0].CallSite
 	consumed := c.Result(rd, 0)
+	isConsumed := func(lo *X) bool {
+		if Same(lo, consumed) || strip(lo).V == consumed.V {
+			return true
+		}
+		at, _ := lo.V.(ssa.Instruction)
+		ls := c.Leaves(lo, at)
+		if len(ls) == 0 {
+			return false
+		}
+		for _, l := range ls {
+			if !(Same(l, consumed) || strip(l).V == consumed.V) {
+				return false
+			}
+		}
+		return true
+	}
 	// the reader is a buffer over the current remainder B
 	bb, ok := Match(Call("bytes.NewBuffer", Bind("B")), rd.X.Args[1])
 	if !ok {
@@ -583,10 +601,19 @@ func c11Cursor(c *Ctx) {
 				continue
 			}
 			if m, ok := Match(Op("slice", "", Is(B), Bind("lo"), Op("nil", ""), Op("nil", "")), x); ok {
-				okAdv = Same(m["lo"], consumed)
+				okAdv = isConsumed(m["lo"])
 				if !okAdv {
-					// allow int(consumed)
-					okAdv = strip(m["lo"]).V == consumed.V
+					// the advance is judged where it happens: only return sites of the helper compatible with err == nil
+					if si, ok := x.V.(ssa.Instruction); ok {
+						all := true
+						ls := c.Leaves(m["lo"], si)
+						for _, l := range ls {
+							if !(Same(l, consumed) || strip(l).V == consumed.V) {
+								all = false
+							}
+						}
+						okAdv = all && len(ls) > 0
+					}
 				}
 			} else {
 				okAdv = false
